@@ -68,6 +68,9 @@ def raster_cases(draw):
          "georef": draw(st.booleans()), "classif": draw(st.booleans()), "segm": draw(st.booleans())}
     if layout:
         p["nodata_layout"] = layout
+    if isf and nodata in (0, 7, 40, -9999, 12345) and draw(st.integers(0, 3)) == 0:
+        p["near_nodata"] = [[draw(st.integers(0, nb - 1)), draw(st.integers(0, H - 1)), draw(st.integers(0, W - 1))]
+                            for _ in range(draw(st.integers(1, 3)))]
     if dkind == "list":
         a = draw(st.integers(-9, 5))
         p["disp"] = [a, a + draw(st.integers(0, 9))]
@@ -88,7 +91,12 @@ def decode_img(p):
             return [conv(x) for x in v]
         return fl(v)
 
-    return np.array(conv(p["img"]), dtype=p["dtype"])
+    a = np.array(conv(p["img"]), dtype=p["dtype"])
+    for b, r, c in p.get("near_nodata", []):
+        # a sample very close to the no-data value but not equal to it: it is data
+        nd = float(p["nodata"])
+        a[b, r, c] = np.array(4e-9 if nd == 0 else nd * (1 + 4e-6), dtype=p["dtype"])
+    return a
 
 
 def expected_window(roi, H, W):
@@ -243,6 +251,8 @@ def raster_body(ctx: Ctx, p: dict) -> None:
     classes = [p["dtype"]]
     if p.get("nodata_layout"):
         classes.append("nodata-only-in-" + p["nodata_layout"])
+    if p.get("near_nodata"):
+        classes.append("sample-close-to-nodata")
     if roi:
         classes.append("roi")
     if special:
